@@ -10,3 +10,8 @@ echo "setup ok"
 [ -f lifted/Cargo.lock ] || cp /repo/Cargo.lock lifted/Cargo.lock
 (cd lifted && CARGO_TARGET_DIR=/verif/build/lifted cargo build --offline --quiet)
 echo "setup L ok"
+[ -f kani/Cargo.lock ] || cp /repo/Cargo.lock kani/Cargo.lock
+[ -f kani/native/Cargo.lock ] || cp /repo/Cargo.lock kani/native/Cargo.lock
+(cd kani && python3 gen.py C12 quick src/generated.rs native/src/generated_native.rs > /dev/null && cargo kani --target-dir /verif/build/kani-model --only-codegen > /dev/null 2>&1 || true)
+(cd kani/native && CARGO_TARGET_DIR=/verif/build/knative cargo build --offline --quiet || true)
+echo "setup K ok"
